@@ -15,23 +15,32 @@ Fixpoint index_of (f : kobs -> bool) (l : list kobs) (i : nat) : option nat :=
    during Attaching gets neither Attached nor Detached; the protocol is told of arrival at most once and of
    departure at most once and only after an accepted arrival.  (7777/8888 are emitted by the harness for a
    duplicate live id / an id outside 1..2^31-1.) *)
-Definition c13_pipe_ok (l : list kobs) (p : N) : bool :=
+(* the events that concern pipe p, in order *)
+Definition about (p : N) (o : kobs) : bool :=
+  match o with
+  | HAttaching q | HAttached q | HDetached q | PRemove q | TClose q => q =? p
+  | PAdd q _ => q =? p
+  | _ => false
+  end.
+Definition evs (p : N) (l : list kobs) : list kobs := filter (about p) l.
+
+Definition c13_events_ok (e : list kobs) : bool :=
   let is k o := match k, o with
-                | 0, HAttaching q | 1, HAttached q | 2, HDetached q | 4, PRemove q | 5, TClose q => q =? p
-                | 3, PAdd q true => q =? p
-                | 6, PAdd q false => q =? p
+                | 0, HAttaching _ | 1, HAttached _ | 2, HDetached _ | 4, PRemove _ | 5, TClose _ => true
+                | 3, PAdd _ true => true
+                | 6, PAdd _ false => true
                 | _, _ => false end in
-  let any o := is 0 o || is 1 o || is 2 o || is 3 o || is 4 o || is 5 o || is 6 o in
-  (Nat.eqb (cnt (is 0) l) 1)
-  && (match index_of any l 0, index_of (is 0) l 0 with Some a, Some b => Nat.eqb a b | _, _ => false end)
-  && (Nat.leb (cnt (is 1) l) 1) && (Nat.leb (cnt (is 2) l) 1)
-  && (Nat.leb (cnt (is 3) l + cnt (is 6) l) 1) && (Nat.leb (cnt (is 4) l) 1)
-  && (Nat.leb (cnt (is 1) l) (cnt (is 3) l))            (* Attached only if accepted *)
-  && (Nat.leb (cnt (is 2) l) (cnt (is 3) l))            (* Detached only if accepted *)
-  && (Nat.leb (cnt (is 4) l) (cnt (is 3) l))            (* RemovePipe only after an accepted AddPipe *)
-  && (Nat.eqb (cnt (is 2) l) (cnt (is 4) l))            (* Detached iff the protocol was told of the departure *)
+  (match e with HAttaching _ :: _ => true | _ => false end)       (* Attaching first ... *)
+  && (Nat.eqb (cnt (is 0) e) 1)                                    (* ... and exactly once *)
+  && (Nat.leb (cnt (is 1) e) 1) && (Nat.leb (cnt (is 2) e) 1)
+  && (Nat.leb (cnt (is 3) e + cnt (is 6) e) 1) && (Nat.leb (cnt (is 4) e) 1)
+  && (Nat.leb (cnt (is 1) e) (cnt (is 3) e))            (* Attached only if accepted *)
+  && (Nat.leb (cnt (is 2) e) (cnt (is 3) e))            (* Detached only if accepted *)
+  && (Nat.leb (cnt (is 4) e) (cnt (is 3) e))            (* RemovePipe only after an accepted AddPipe *)
+  && (Nat.eqb (cnt (is 2) e) (cnt (is 4) e))            (* Detached iff the protocol was told of the departure *)
   && (* once the transport pipe is closed, an accepted pipe has been detached (the run-down is complete at quiescence) *)
-     (if Nat.ltb 0 (cnt (is 5) l) then Nat.eqb (cnt (is 2) l) (cnt (is 3) l) else true).
+     (if Nat.ltb 0 (cnt (is 5) e) then Nat.eqb (cnt (is 2) e) (cnt (is 3) e) else true).
+Definition c13_pipe_ok (l : list kobs) (p : N) : bool := c13_events_ok (evs p l).
 Definition c13_oracle (h : list kstep_rec) : option N :=
   let l := all_obs h in
   if existsb (fun o => match o with HAttaching 7777 | HDetached 8888 | HAttaching 8888 => true | _ => false end) l then Some 7777
